@@ -63,6 +63,25 @@ theorem C03_bytearray_bounds_example :
     decode (.byteArr 4 none 0 2) [1, 2, 3, 4] ⟨false, false⟩ = .ok (.x [1, 2, 3, 4], 4) := by
   decide
 
+/-! ## Settings priority -/
+
+/-- **Priority of settings.**  In `hi.merge lo` (option over tag over registered settings) a value set
+at the higher level wins whatever it is — an explicit `lexicalOrdering = false`, empty array rules —
+and an unset one falls through to the lower level. -/
+theorem C03_merge_priority (hi lo : TS) :
+    (∀ b, hi.lexOrd = some b → (hi.merge lo).lexOrd = some b) ∧ (hi.lexOrd = none → (hi.merge lo).lexOrd = lo.lexOrd) ∧
+    (∀ x, hi.lp = some x → (hi.merge lo).lp = some x) ∧ (hi.lp = none → (hi.merge lo).lp = lo.lp) ∧
+    (∀ c, hi.code = some c → (hi.merge lo).code = some c) ∧ (hi.code = none → (hi.merge lo).code = lo.code) ∧
+    (∀ r, hi.rules = some r → (hi.merge lo).rules = some r) ∧ (hi.rules = none → (hi.merge lo).rules = lo.rules) := by
+  refine ⟨?_, ?_, ?_, ?_, ?_, ?_, ?_, ?_⟩ <;> intros <;> simp_all [TS.merge]
+
+/-- Switching auto-sort off through the per-call option beats a registered `true` (and the tag level,
+which cannot set the flag, is transparent). -/
+theorem C03_merge_lex_off_example (tag reg : TS) (htag : tag.lexOrd = none) :
+    (({ lexOrd := some false } : TS).merge (tag.merge reg)).autoSort = false ∧
+    (({} : TS).merge (tag.merge { reg with lexOrd := some true })).autoSort = true := by
+  simp [TS.merge, TS.autoSort, htag]
+
 /-! ## Layout -/
 
 theorem leBytes_getElem? (w n i : Nat) :
